@@ -314,6 +314,8 @@ where
     /// use [`LoRa::prepare_for_rx`].
     pub async fn rx_switch_channel(&mut self, frequency_in_hz: u32) -> Result<(), RadioError> {
         if let RadioMode::Receive(listen_mode) = self.radio_mode {
+            // in duty-cycle reception the chip may be in its sleep phase: wake it before commanding it
+            self.radio_kind.ensure_ready(self.radio_mode).await?;
             self.radio_kind.set_standby().await?;
             self.radio_kind.set_channel(frequency_in_hz).await?;
             self.radio_kind.do_rx(listen_mode).await
